@@ -129,6 +129,18 @@ func cmdDump(args []string) {
 			continue
 		}
 		f.WriteTo(os.Stdout)
+		e := &Enc{P: p, Fn: f, loops: map[int]*loopInfo{}, loopOf: map[int][]*loopInfo{}}
+		e.findLoops()
+		for bi, li := range e.loops {
+			pos := ""
+			for _, ins := range f.Blocks[bi].Instrs {
+				if ins.Pos().IsValid() {
+					pos = p.Prog.Fset.Position(ins.Pos()).String()
+					break
+				}
+			}
+			fmt.Printf("# loop %d: head block %d (%s) %s\n", li.ordinal, bi, f.Blocks[bi].Comment, pos)
+		}
 		for _, af := range f.AnonFuncs {
 			af.WriteTo(os.Stdout)
 		}
